@@ -210,6 +210,19 @@ def run(ctx):
             why = G.show(p)[:300]
             g2 = p[0] == "ptrop" and p[1] in ("add", "offset") and p[2] == ("asptr", mm) and p[4] == 1 and \
                 p[3] in (("bin", "Mul", i_t, stride), ("bin", "Mul", stride, i_t))
+        safe_ptr = None
+        if not sites and somes:
+            # no pointer arithmetic of its own: the descriptor's bytes are taken as a bounds-checked sub-slice `memory_map[off..off + 40]`
+            # and the reference is formed at that sub-slice's start - TERMS reads `sub.as_ptr()` as `memory_map.as_ptr() + off`
+            y = N(somes[0].payload)
+            for _ in range(6):
+                if y[0] in ("ref", "deref", "unwrap") or (y[0] == "cast" and y[1] in ("PtrToPtr", "Transmute")):
+                    y = y[2] if y[0] == "cast" else y[1]
+            if y[0] == "ptrop":
+                safe_ptr = y
+                why = G.show(y)[:300]
+                g2 = y[1] in ("add", "offset") and y[2] == ("asptr", mm) and y[4] == 1 and y[3] in (("bin", "Mul", i_t, stride), ("bin", "Mul", stride, i_t))
+                g1 = G.entails(somes[0].facts, ("cmp", "Lt", rawf(B, "i"), rawf(B, "entries"))) is not None
         ctx.check(g1, "S1", "guard", "i < entries is a fact where the descriptor pointer is formed", B.site(sites[0][0]) if sites else B.site(),
                   how="negated exhaustion test dominates the unsafe block", why="facts: %s" % ([G.show(f)[:80] for f in B.g.facts_at(sites[0][0])] if sites else ""))
         ctx.check(g2, "S2", "pointer", "the descriptor pointer is memory_map.as_ptr() + i * desc_size (bytes)", B.site(sites[0][0]) if sites else B.site(), how=why, why=why)
@@ -230,6 +243,8 @@ def run(ctx):
                 while y[0] in ("ref", "deref") and y != ptr_t:
                     y = y[1]
                 g3 = g3 or y == ptr_t
+        if safe_ptr is not None:
+            g3 = g2
         ctx.check(g3, "S2", "reference", "the yielded item is the EFIMemoryDesc reference at that pointer", B.site(), how=G.show(somes[0].val)[:200] if somes else "",
                   why=G.show(somes[0].val)[:300] if somes else "no Some exit")
         # writes
